@@ -79,7 +79,7 @@ theorem parseOpts_spec (fuel : Nat) (c : Cursor) (pos optEnd : Nat)
           by_cases hz : x.toNat = 0
           · -- END: skip to the end of the header
             left
-            have hsk := skip_spec' ⟨c.mem.drop 1, c.size - 1⟩ (optEnd - (pos + 1)) (by simp only; omega)
+            have hsk := skip_closed ⟨c.mem.drop 1, c.size - 1⟩ (optEnd - (pos + 1)) (by simp only; omega)
             refine ⟨[], ⟨(c.mem.drop 1).drop (optEnd - (pos + 1)), c.size - 1 - (optEnd - (pos + 1))⟩, ?_, ?_, ?_, by simp,
               by simp [Ip4.calcOptionsSize]⟩
             · simp only [hz, beq_self_eq_true, if_true, hsk, pure]
@@ -128,7 +128,7 @@ theorem parseOpts_spec (fuel : Nat) (c : Cursor) (pos optEnd : Nat)
                         ⟨c.mem.drop (1 + 1), c.size - 1 - 1⟩ 0 (y.toNat - 2) = .ok ((c.mem.drop (1 + 1)).take (y.toNat - 2)) := by
                       unfold Cursor.peek
                       exact rdN_zero _ _ _ (by simp only [List.length_drop]; omega)
-                    have hsk := skip_spec' ⟨c.mem.drop (1 + 1), c.size - 1 - 1⟩ (y.toNat - 2) (by simp only; omega)
+                    have hsk := skip_closed ⟨c.mem.drop (1 + 1), c.size - 1 - 1⟩ (y.toNat - 2) (by simp only; omega)
                     simp only [hpk, hsk, List.drop_drop]
                     have i3 : (⟨c.mem.drop (1 + 1 + (y.toNat - 2)), c.size - 1 - 1 - (y.toNat - 2)⟩ : Cursor).Inv := by
                       simp only [Cursor.Inv, List.length_drop]; omega
